@@ -3,6 +3,7 @@ import Uom.Gen.Table
 import Uom.Model.LabelCheck
 import Uom.Gen.Check.Labels
 import Uom.Proofs.TextLemmas
+import Uom.Proofs.BodyEq.Text
 /-!
 # C12 — parsing accepts exactly `<number> <unit label>` and inverts formatting
 
@@ -208,5 +209,47 @@ example : fromStr demoUnits demoParse (fun i v => (i, v)) [0x31, 0x6b, 0x6d] = .
 example : fromStr demoUnits demoParse (fun i v => (i, v)) [0x78, 0x20, 0x6b, 0x6d] = .valueParseError := by decide
 example : fromStr demoUnits demoParse (fun i v => (i, v)) [0x31, 0x20, 0x6d, 0x69] = .unknownUnit := by decide
 example : fromStr demoUnits demoParse (fun i v => (i, v)) [0x31, 0x20, 0xc2, 0xa0, 0x6b, 0x6d, 0xe3, 0x80, 0x80] = .ok (1, 1) := by decide +kernel
+
+/-! ### tie to the source: `from_str` regenerated from /repo/src/quantity.rs on this run
+
+`Gen.RxBody.quantity_FromStr_for_quantity_from_str` is what the translator read from the Rust source just
+now (splitn / next / unwrap / ok_or / `?` / parse / map_err / trim / the `match` over the unit repetition);
+`Rx.run` evaluates it.  The theorems below state the property's clauses *for the regenerated body*. -/
+section SourceTieRx
+open Uom.Rx Uom.Gen.RxBody Uom.BodyEq.Text
+
+/-- the regenerated body computes the model's `fromStr`, for every input -/
+theorem src_from_str {V Q : Type} (units : List Labels) (parse : Bytes → Option V) (mk : Nat → V → Q) (s : Bytes) :
+    run (envFromStr units parse mk) quantity_FromStr_for_quantity_from_str [.str s] =
+      (embedParse (fromStr units parse mk s), []) := from_str_eq units parse mk s
+
+/-- **the source succeeds exactly when** the text is a parsable number, one U+0020, and (blanks ignored) a
+    registered label — and then returns `Self::new::<unit>(number)` -/
+theorem src_from_str_ok_iff {V Q : Type} (units : List Labels) (parse : Bytes → Option V) (mk : Nat → V → Q)
+    (s : Bytes) (q : Q) :
+    (run (envFromStr units parse mk) quantity_FromStr_for_quantity_from_str [.str s]).1 =
+        .val (.ctor1 cOk (.host (.q q))) ↔
+      ∃ num rest v i, splitFirstSpace s = some (num, rest) ∧ parse num = some v ∧
+        lookupLabel units (trim rest) = some i ∧ q = mk i v := by
+  rw [from_str_eq, ← parse_ok_iff]
+  cases h : fromStr units parse mk s <;> simp [embedParse, cOk, cErr]
+
+/-- **the source's error precedence**: `NoSeparator` iff there is no U+0020 at all -/
+theorem src_from_str_no_separator_iff {V Q : Type} (units : List Labels) (parse : Bytes → Option V)
+    (mk : Nat → V → Q) (s : Bytes) :
+    (run (envFromStr units parse mk) quantity_FromStr_for_quantity_from_str [.str s]).1 =
+        .val (.ctor1 cErr (.ctor0 c_NoSeparator)) ↔ splitFirstSpace s = none := by
+  rw [from_str_eq, ← no_separator_iff units parse mk]
+  cases h : fromStr units parse mk s <;>
+    simp [embedParse, cOk, cErr, c_NoSeparator, c_ValueParseError, c_UnknownUnit]
+
+/-- the source never panics and never leaves the evaluator's subset: it always returns `Ok` or `Err` -/
+theorem src_from_str_total {V Q : Type} (units : List Labels) (parse : Bytes → Option V) (mk : Nat → V → Q)
+    (s : Bytes) :
+    ∃ c x, (run (envFromStr units parse mk) quantity_FromStr_for_quantity_from_str [.str s]).1 = .val (.ctor1 c x) := by
+  rw [from_str_eq]
+  cases fromStr units parse mk s <;> exact ⟨_, _, rfl⟩
+
+end SourceTieRx
 
 end Uom.C12
